@@ -879,7 +879,9 @@ pub fn lifecycle_case(inp: &Input, cfg: &Cfg, script: &[&str], tag: &str) -> Val
                 let r = std::panic::catch_unwind(std::panic::AssertUnwindSafe(|| mk_config(&calls).parse(&bytes)));
                 let input = lifecycle_input(&bytes, hint);
                 match r {
-                    Ok(Ok(m)) => {
+                    Ok(Ok(mut m)) => {
+                        // what a tool does first: ask for its own section, which this module does not have; nothing may leave
+                        let _ = std::panic::catch_unwind(std::panic::AssertUnwindSafe(|| m.customs.remove_raw("wv.not-in-this-module").is_some()));
                         events.push(json!({"ev": step, "ok": true, "cfg": cfgj, "input": input, "calls": calls.load(Ordering::SeqCst), "held": held_customs(&m)}));
                         module = Some(m);
                     }
@@ -977,7 +979,18 @@ pub fn config_case(inp: &Input, dwarf_ok: bool) -> Value {
             Ok(())
         });
         let flags = json!({"names": cfg.names, "producers": cfg.producers, "dwarf": cfg.dwarf, "xform": cfg.xform, "stable": cfg.stable, "synth": cfg.synth, "strict": strict, "late": late});
-        let r = std::panic::catch_unwind(std::panic::AssertUnwindSafe(|| config.parse(&inp.bytes)));
+        // the three ways into the parser must be one and the same: from memory, and from a file through either of the
+        // file-based entry points (a scratch file, removed at once)
+        let r = std::panic::catch_unwind(std::panic::AssertUnwindSafe(|| match bits % 4 {
+            0 | 3 => config.parse(&inp.bytes),
+            way => {
+                let path = std::env::temp_dir().join(format!("wv-cfg-{}-{}-{}-{}.wasm", std::process::id(), absmod::fnv(inp.id.as_bytes()), bits, late as u8 + 2 * strict as u8));
+                std::fs::write(&path, &inp.bytes).expect("scratch file");
+                let r = if way == 1 { config.parse_file(&path) } else { walrus::Module::from_file_with_config(&path, &config) };
+                let _ = std::fs::remove_file(&path);
+                r
+            }
+        }));
         let run = match r {
             Ok(Ok(mut m)) => match run::emit(&mut m, false) {
                 Ok(e) => {
